@@ -104,9 +104,11 @@ pub fn inject<S: TexlangState>(t: token::Token, input: &mut vm::ExecutionInput<S
     }
     Ok(())
 }
-/// `\relax` that leaves a trace in the observation log (any unexpandable primitive would do).
-pub fn relax_recorded<S: TexlangState>(_t: token::Token, _input: &mut vm::ExecutionInput<S>) -> prelude::Result<()> {
-    OUT.with(|o| o.borrow_mut().push(Tok::Cs("relax")));
+/// An unexpandable primitive that does nothing but leave its own token in the observation log
+/// (installed as `\relax` and as the end marker `\END`).
+pub fn relax_recorded<S: TexlangState>(t: token::Token, input: &mut vm::ExecutionInput<S>) -> prelude::Result<()> {
+    let tk = tok_of(input.vm(), t);
+    OUT.with(|o| o.borrow_mut().push(tk));
     Ok(())
 }
 
@@ -172,6 +174,7 @@ pub fn builtins_m(optimized_xa: bool) -> HashMap<&'static str, command::BuiltIn<
         ("capture", command::BuiltIn::new_execution(capture::<M>)),
         ("inject", command::BuiltIn::new_execution(inject::<M>)),
         ("relax", command::BuiltIn::new_execution(relax_recorded::<M>)),
+        ("END", command::BuiltIn::new_execution(relax_recorded::<M>)),
         ("xa", if optimized_xa { expansion::get_expandafter_optimized() } else { expansion::get_expandafter_simple() }),
         ("noexpand", expansion::get_noexpand()),
         ("iftrue", conditional::get_iftrue()),
@@ -182,6 +185,20 @@ pub fn builtins_m(optimized_xa: bool) -> HashMap<&'static str, command::BuiltIn<
         ("or", conditional::get_or()),
         ("else", conditional::get_else()),
         ("fi", conditional::get_fi()),
+    ])
+}
+
+/// The built-ins that the macro check needs (a VM with 8 commands is created faster than one with 18).
+pub fn builtins_macro_only() -> HashMap<&'static str, command::BuiltIn<M>> {
+    HashMap::from([
+        ("def", def::get_def()),
+        ("gdef", def::get_gdef()),
+        ("global", prefix::get_global()),
+        ("capture", command::BuiltIn::new_execution(capture::<M>)),
+        ("inject", command::BuiltIn::new_execution(inject::<M>)),
+        ("relax", command::BuiltIn::new_execution(relax_recorded::<M>)),
+        ("END", command::BuiltIn::new_execution(relax_recorded::<M>)),
+        ("xa", expansion::get_expandafter_simple()),
     ])
 }
 
@@ -258,6 +275,18 @@ pub fn run_m(src: &str, injected: &[Tok], optimized_xa: bool) -> Outcome {
     }
 }
 
+/// As `run_m`, with only the built-ins of `builtins_macro_only`.
+pub fn run_m_macro_only(src: &str, injected: &[Tok]) -> Outcome {
+    match vcore::catch(|| {
+        let mut vm = vm::VM::<M>::new_with_built_in_commands(builtins_macro_only());
+        run_on(&mut vm, src, injected)
+    }) {
+        Ok(r) => Outcome::Done(r),
+        Err(p) if p.cutoff => Outcome::Cutoff,
+        Err(p) => Outcome::Panic(p),
+    }
+}
+
 /// The same program on the full harness state `vtex::HState` (all stdlib built-ins, real components).
 pub fn run_full(src: &str, injected: &[Tok], optimized_xa: bool) -> Outcome {
     use vtex::HState;
@@ -266,6 +295,7 @@ pub fn run_full(src: &str, injected: &[Tok], optimized_xa: bool) -> Outcome {
         b.insert("capture", command::BuiltIn::new_execution(capture::<HState>));
         b.insert("inject", command::BuiltIn::new_execution(inject::<HState>));
         b.insert("relax", command::BuiltIn::new_execution(relax_recorded::<HState>));
+        b.insert("END", command::BuiltIn::new_execution(relax_recorded::<HState>));
         b.insert("xa", if optimized_xa { expansion::get_expandafter_optimized() } else { expansion::get_expandafter_simple() });
         let mut vm = Box::new(vm::VM::<HState>::new_with_built_in_commands(b));
         vtex::prepare(&mut vm);
